@@ -234,6 +234,12 @@ pub fn family(rng: &mut Rng, fam: usize, n: usize) -> Vec<SpacePoint> {
                     ts.push(t);
                 }
             }
+            // often the two extreme points themselves (farthest from / closest to the beamline: the ends of a diameter,
+            // exactly half a turn apart)
+            if rng.bool() {
+                ts.push(far);
+                ts.push(if far > 0.0 { far - PI } else { far + PI });
+            }
             helix_points(p, &ts)
         }
         14 => {
